@@ -30,7 +30,9 @@ theorem extract_shorter (s : Bytes) (v : Int) (r : Bytes) (h : ChunkUnsigned.ext
   · rename_i line rest heq
     split at h
     · simp at h
-    · simp at h; rw [← h.2]; exact readLine_shorter s line rest heq
+    · split at h
+      · simp at h
+      · simp at h; rw [← h.2]; exact readLine_shorter s line rest heq
 
 theorem readAndSkip_le : ∀ (d s r : Bytes), readAndSkip d s = .ok r → r.length ≤ s.length := by
   intro d
@@ -75,70 +77,20 @@ theorem loop_no_fuel (cfg : ChunkUnsigned.Cfg) (cap : Nat) :
       · split
         · simp
         · split
-          · split <;> simp
-          · split
+          · simp
+          · rename_i rest' hsk
+            split
             · simp
-            · rename_i rest' hsk
-              split
-              · simp
-              · apply ih
-                have h1 : rest'.length ≤ (List.drop chunkSize.toNat rest).length := by
-                  unfold ChunkUnsigned.skipBytes at hsk
-                  split at hsk
-                  · rename_i r hr; simp at hsk; subst hsk; exact readAndSkip_le _ _ _ hr
-                  · simp at hsk
-                  · simp at hsk
-                simp only [List.length_drop] at h1
-                simp only
-                omega
-theorem finishHeader_p (cfg : ChunkSigned.Cfg) (st : ChunkSigned.State) (sl : Nat) (p header cur : Bytes) (n : Int) :
-    (ChunkSigned.finishHeader cfg st sl p header cur n).2.1 = p := by
-  unfold ChunkSigned.finishHeader
-  repeat' split
-  all_goals simp
-
-theorem finishHeader_n (cfg : ChunkSigned.Cfg) (st : ChunkSigned.State) (sl : Nat) (p header cur : Bytes) (n : Int) :
-    (ChunkSigned.finishHeader cfg st sl p header cur n).2.2.1 = n := by
-  unfold ChunkSigned.finishHeader
-  repeat' split
-  all_goals simp
-
-theorem shift2_length (X : Bytes) : (ChunkSigned.shift2 (13 :: 10 :: X)).length = (13 :: 10 :: X).length := by
-  simp [ChunkSigned.shift2]; omega
-
-theorem readAndSkip_crlf_shape (s r : Bytes) (h : readAndSkip [13, 10] s = .ok r) : s = 13 :: 10 :: r := by
-  match s, h with
-  | a :: b :: t, h =>
-    simp only [readAndSkip] at h
-    split at h
-    · split at h
-      · simp at h; subst h; simp_all
-      · simp at h
-    · simp at h
-  | [_], h => simp [readAndSkip] at h; split at h <;> simp at h
-  | [], h => simp [readAndSkip] at h
-
-/-- `parseChunkHeaderBytes` hands back a buffer of the same length and an `n` within it -/
-theorem parseChunkHeaderBytes_buf (cfg : ChunkSigned.Cfg) (st : ChunkSigned.State) (p : Bytes) :
-    (ChunkSigned.parseChunkHeaderBytes cfg st p).2.1.length = p.length ∧
-    (ChunkSigned.parseChunkHeaderBytes cfg st p).2.2.1 ≤ (p.length : Int) := by
-  unfold ChunkSigned.parseChunkHeaderBytes
-  simp only
-  split
-  · simp
-  · split
-    · split
-      · simp
-      · rename_i cur hrd
-        simp only [finishHeader_p, finishHeader_n]
-        refine ⟨?_, by omega⟩
-        cases hs : st.stash with
-        | none =>
-          simp only [hs] at hrd ⊢
-          have := readAndSkip_crlf_shape _ _ hrd
-          rw [this]; simp [ChunkSigned.shift2]; omega
-        | some s => simp
-    · simp only [finishHeader_p, finishHeader_n]; simp
+            · apply ih
+              have h1 : rest'.length ≤ (List.drop chunkSize.toNat rest).length := by
+                unfold ChunkUnsigned.skipBytes at hsk
+                split at hsk
+                · rename_i r hr; simp at hsk; subst hsk; exact readAndSkip_le _ _ _ hr
+                · simp at hsk
+                · simp at hsk
+              simp only [List.length_drop] at h1
+              simp only
+              omega
 
 theorem finalChunk_no_fuel (cfg : ChunkSigned.Cfg) (st : ChunkSigned.State) :
     (ChunkSigned.finalChunk cfg st).2.status ≠ .fuel := by
@@ -166,6 +118,34 @@ theorem joinRec_no_fuel (c : Int) (d : Bytes) (r : ChunkSigned.State × ChunkSig
     · simp
     · simpa using h
 
+theorem parBody_no_fuel (cfg : ChunkSigned.Cfg) (K : ChunkSigned.State → Bytes → ChunkSigned.State × ChunkSigned.Out)
+    (st : ChunkSigned.State) (p : Bytes)
+    (hK : ∀ st' p', p'.length < p.length → (K st' p').2.status ≠ .fuel) :
+    (ChunkSigned.parBody cfg K st p).2.status ≠ .fuel := by
+  unfold ChunkSigned.parBody
+  generalize ChunkSigned.parseChunkHeaderBytes cfg st p = r
+  obtain ⟨st2, res⟩ := r
+  cases res with
+  | skip => simp
+  | fail e => simp
+  | chunk size sig off =>
+    simp only
+    split
+    · exact finalChunk_no_fuel cfg _
+    · rename_i hz
+      split
+      · simp
+      · split
+        · rename_i hgt
+          split
+          · simp
+          · apply joinRec_no_fuel
+            apply hK
+            simp only [List.length_drop] at hgt ⊢
+            have : size ≠ 0 := by simpa using hz
+            omega
+        · simp
+
 /-- the fuel `Read` gives to `parseAndRemoveChunkInfo` is enough: the recursion is on a strictly
 shorter buffer -/
 theorem parseAndRemove_no_fuel (cfg : ChunkSigned.Cfg) :
@@ -177,30 +157,10 @@ theorem parseAndRemove_no_fuel (cfg : ChunkSigned.Cfg) :
   | succ fuel ih =>
     intro st p h
     rw [ChunkSigned.parseAndRemove]
+    unfold ChunkSigned.parStep
+    simp only
     split
     · simp
-    · rename_i st1 _
-      have hbuf := parseChunkHeaderBytes_buf cfg st1 p
-      split
-      · simp
-      · simp
-      · rename_i st2 p' n' chunkSize sig off heq
-        rw [heq] at hbuf
-        simp only at hbuf
-        split
-        · exact finalChunk_no_fuel cfg _
-        · split
-          · simp
-          · rename_i hz hoff
-            by_cases hgt : n' - off > chunkSize
-            · by_cases hneg : chunkSize < 0
-              · simp [hgt, hneg]
-              · simp only [hgt, hneg, if_true, if_false]
-                apply joinRec_no_fuel
-                apply ih
-                simp only [List.length_drop, List.length_take]
-                have : chunkSize ≠ 0 := by simpa using hz
-                omega
-            · simp [hgt]
+    · exact parBody_no_fuel cfg _ _ p (fun st' p' hp => ih st' p' (by omega))
 
 end Vgw.Lemmas.Fuel
